@@ -120,14 +120,20 @@ def run(ck):
     ck.distinct = ck.stats.get("model_distinct", 0)
     ck.extra["ownership_checks"] = ck.stats.get("ownership_checks", 0)
     ck.extra["reencode_checks"] = ck.stats.get("reencode_checks", 0)
-    ck.rule = ("every input: DetectPacket vs detect_go; Decode of the type named by the first nibble and of mismatching types vs "
-               "decode_go and vs ref_decode (accept iff, same fields, same count); when the declared extent fits: framed to the extent, "
-               "extent + random tail, extent + a valid packet, all compared with the framed result (locality); source buffer overwritten "
-               "after every successful decode, and packets read through packet.Decoder re-examined after later reads reused its pooled buffers (ownership); every admitted PUBLISH / will re-encoded at each QoS <= its own. "
-               "Inputs: fixed corpus (repository test vectors, D1-D3 witnesses), all 1- and 2-byte strings, valid encodings of structured "
-               "random packets of all 14 types with every prefix, every single-bit flip, byte/16-bit edits at every position, "
-               "remaining-length edits and non-minimal encodings, all 16 flag and type nibbles, deletions, duplications, splices, "
-               "type x flags x varint-shape headers, random bytes, packets at the 127/128, 16383/16384 and 65535 boundaries; hand-built PUBLISHes at every "
-               "remaining-length width boundary up to 2097151/2097152 through DetectPacket, Publish.Decode and packet.Decoder (agreement, next packet intact); "
-               "thorough adds all 3-byte strings, all header shapes, 8x the structured set. "
-               "distinct_nontrivial = distinct (type, buffer) pairs whose header declares an extent")
+    ck.rule = ("every input: DetectPacket vs detect_go, and its stream-decoder view vs Stream.detect_impl (detect_view); Decode of the type "
+               "named by the first nibble and of mismatching types vs decode_go and vs ref_decode (accept iff, same fields, same count); "
+               "admitted PUBLISH / will judged by WF.wf at every QoS <= its own (forwardable) and re-encoded in Go; when the declared extent "
+               "fits: framed to the extent, extent + random tail, extent + a valid packet, all compared with the framed result (locality); "
+               "the same bytes, and bytes + a valid packet, through packet.Decoder: first Read and the Read after it vs ReadSpec.read_spec, "
+               "with no limit, a limit of exactly the packet size and one less (stream_read); source buffer overwritten after every successful "
+               "decode, packets read through packet.Decoder re-examined after later reads reused its pooled buffers (ownership). "
+               "Inputs: fixed corpus (repository test vectors, D1-D3 witnesses); the rule table (one obeying and the smallest violating packets "
+               "for every rule of the reference grammar, one packet per leniency L1-L6); all 1- and 2-byte strings; all 256 first bytes x 26 "
+               "boundary shapes of 1..5-byte remaining lengths; valid encodings of structured random packets of all 14 types with every prefix, "
+               "every single-bit flip, byte/16-bit edits at every position, remaining-length edits and non-minimal encodings, all 16 flag and "
+               "type nibbles, deletions, duplications, extensions, splices; sampled type x flags x varint-shape headers; random bytes; packets at "
+               "the 127/128, 16383/16384 and 65535 boundaries; hand-built PUBLISH at every remaining-length width boundary and SUBSCRIBE / "
+               "UNSUBSCRIBE / SUBACK / PUBLISH beyond 2097152 through DetectPacket, Decode, re-Encode and packet.Decoder with limits (Go side); "
+               "Type.New/Valid/String for all 256 type values and packet.Fuzz on 1024 headers. "
+               "thorough adds all 3-byte strings, all header shapes, 5x the structured set, 90 s of go test -fuzz whose kept inputs are replayed "
+               "through the differential run. distinct_nontrivial = distinct (type, buffer) pairs whose header declares an extent")
